@@ -387,15 +387,21 @@ def run_check(pid, tier, only_cfgs=None, quiet=False):
     build_errors = []
     transcripts = {}
     runs = []
+    # thorough tier: the same workload under several seeds (VERIF_THOROUGH_SEEDS, default 4)
+    nseeds = int(os.environ.get('VERIF_THOROUGH_SEEDS', '4') or '4') if tier == 'thorough' else 1
+    seeds = [seed + 7919 * i for i in range(max(1, nseeds))]
     for cfg in cfgs:
         rc, out, binpath = builds[cfg]
         if rc != 0:
             build_errors.append((cfg, out[-3000:]))
             continue
         for wl in spec.get('workloads', [spec.get('workload')]):
-            runs.append((cfg, binpath, wl))
-    for cfg, binpath, wl in runs:
-        r = run_workload(pid, cfg, binpath, wl, seed, tier, tag='-' + wl)
+            for s_i in seeds:
+                runs.append((cfg, binpath, wl, s_i))
+    for cfg0, binpath, wl, s_i in runs:
+        # the label of a run with a derived seed carries it, so that a replay finds the same workload
+        cfg = cfg0 if s_i == seed else '%s seed=%d' % (cfg0, s_i)
+        r = run_workload(pid, cfg0, binpath, wl, s_i, tier, tag='-' + wl)
         if 'error' in r:
             if r.get('aborted_case'):
                 # the process died (abort / stack overflow / allocation failure) inside the real code
@@ -414,10 +420,10 @@ def run_check(pid, tier, only_cfgs=None, quiet=False):
             continue
         m = re.search(r'oracle_checks=(\d+)', r['harness_log'])
         stats['oracle_checks'] += int(m.group(1)) if m else 0
-        pc = stats['per_cfg'].setdefault(cfg, dict(cases=0, disagreements=0, oracle_failures=0))
+        pc = stats['per_cfg'].setdefault(cfg0, dict(cases=0, disagreements=0, oracle_failures=0))
         pc['cases'] += len(cases)
         if spec.get('cross'):
-            transcripts[(cfg, wl)] = dict(zip(cases, impl))
+            transcripts.setdefault((cfg0, wl), {}).update(zip(cases, impl))
         proj = spec['project']
         ndis = 0
         for c, a, b in zip(cases, impl, model):
@@ -626,7 +632,7 @@ def targeted_search(pid, spec, cfgs, builds, seed, known):
                 parts = line.split('\t')
                 if len(parts) >= 3 and parts[0] in spec['oracle'] and not known_match(known, pid, cfg, parts[1], parts[2]):
                     if best is None or len(parts[1]) < len(best[1]):
-                        best = (cfg, parts[1], parts[2])
+                        best = ('%s seed=%d' % (cfg, s), parts[1], parts[2])
             if best:
                 return best
     return None
@@ -705,7 +711,9 @@ def replay(pid, path):
     with Lock('lean'):
         run(['lake', 'build', 'driver'], cwd=LEAN)
     wl = rp.get('workload') or spec.get('workload') or spec['workloads'][0]
-    r = run_workload(pid, cfg.split(' ')[0], binpath, wl, rp.get('seed', 1), rp.get('tier', 'quick'), tag='-replay')
+    mseed = re.search(r'seed=(\d+)', cfg)
+    r = run_workload(pid, cfg.split(' ')[0], binpath, wl, int(mseed.group(1)) if mseed else rp.get('seed', 1),
+                     rp.get('tier', 'quick'), tag='-replay')
     if 'error' in r:
         print(r['error'])
         return 1
